@@ -1,2 +1,62 @@
-(* placeholder, replaced below *)
-From MP Require Import Common.Base Model.Heap Model.Namespace.
+(* Properties/C13.v — namespace operations stay inside the subtree they are applied to.
+   Only statements closed by [exact]; proofs are in Proofs/C13_*.v.
+
+   Model:  Model/Namespace.v (add_namespace, remove_namespace, add_child on the aliasing heap)
+   Spec:   Spec/NsSpec.v     (declare / undeclare / attach on per-node prefix->URI maps)
+   [abs h] reads a heap as a spec state: the forest shape and, per node, the contents of the
+   dict its nsmap field points to.  [Inv h] = forest invariant + NsInv (dicts allocated below
+   the allocation pointer, unique keys).  fix_nsmap / set_nsmap are outside the alphabet. *)
+From MP Require Import Common.Base Common.Tree Model.Heap Model.Namespace Spec.NsSpec
+     Proofs.HeapInv Proofs.DictFacts Proofs.C13_Walk Proofs.C13_Refine Proofs.C13_Attach Proofs.C13_Main.
+
+(** Each concrete operation, run with the standard fuel, terminates normally (never
+    [OutOfFuel], never [Crash]), yields for EVERY node exactly the bindings the specification
+    prescribes, and re-establishes the invariants. *)
+Theorem C13_refines : forall h o,
+  Inv h -> apre (abs_op o) (abs h) ->
+  exists h', exec_nsop h o = Ok h' /\ Inv h' /\ step_spec (abs_op o) (abs h) (abs h').
+Proof. exact step_refines. Qed.
+Print Assumptions C13_refines.
+
+(** … lifted over any history (induction over the operation list) *)
+Theorem C13_refines_history : forall ops h,
+  Inv h -> history_ok h ops -> steps_refine h ops.
+Proof. exact history_refines. Qed.
+Print Assumptions C13_refines_history.
+
+(** No operation changes the bindings seen on a node outside the subtree it is applied to
+    (ancestors, siblings, unrelated trees). *)
+Theorem C13_local : forall h o h' m q,
+  Inv h -> apre (abs_op o) (abs h) -> exec_nsop h o = Ok h' ->
+  ~ desc h (target (abs_op o)) m -> vis_of h' m q = vis_of h m q.
+Proof. exact step_local. Qed.
+Print Assumptions C13_local.
+
+(** The recursion over children never exhausts the standard fuel on a forest. *)
+Theorem C13_fuel : forall h n, Forest h -> alive h n -> tree_at h (fuel_of h) n.
+Proof. exact fuel_ok. Qed.
+Print Assumptions C13_fuel.
+
+(** The invariants hold on every forest of freshly created nodes (the initial states of the
+    harness histories), so the theorems above are not vacuous. *)
+Theorem C13_fresh_forest : forall names, Inv (create_many names empty_heap).
+Proof. exact (fun names => proj1 (create_many_Inv names empty_heap (proj1 Inv_empty) (proj2 Inv_empty))). Qed.
+Print Assumptions C13_fresh_forest.
+
+(** Non-vacuity: the history that broke the pre-fix code (DESIGN 5.C13) satisfies the
+    preconditions step by step, and the model computes the bindings the property demands:
+    r keeps p |-> u1, k1 sees p |-> u2, k2 keeps p |-> u1. *)
+Example C13_witness :
+  let h0 := create_many [(s "r", s "0"); (s "k", s "1"); (s "k", s "2")] empty_heap in
+  match run_nsops h0 [Attach 0 1 None; Attach 0 2 None; Declare 0 (s "p") (s "u1"); Declare 1 (s "p") (s "u2")] with
+  | Ok h => (vis_of h 0 (s "p"), vis_of h 1 (s "p"), vis_of h 2 (s "p")) = (Some (s "u1"), Some (s "u2"), Some (s "u1"))
+  | _ => False
+  end.
+Proof. exact C13_witness_proof. Qed.
+Print Assumptions C13_witness.
+
+(** … and a concrete state + history that satisfy the hypotheses of C13_refines_history *)
+Example C13_nonvacuous :
+  Inv h0_example /\ history_ok h0_example [Attach 0 1 None; Declare 1 (s "p") (s "u")].
+Proof. exact C13_nonvacuous_proof. Qed.
+Print Assumptions C13_nonvacuous.
